@@ -23,6 +23,7 @@ use clarabel::solver::*;
 use clarabel::verif_hooks::cones::verif_hooks_expcone as hexp;
 use clarabel::verif_hooks::cones::verif_hooks_genpowcone as hgp;
 use clarabel::verif_hooks::cones::verif_hooks_psdcone as hpsd;
+use clarabel::verif_hooks::cones::verif_hooks_psdcone_barrier as hpbar;
 use clarabel::verif_hooks::cones::verif_hooks_psdcone_step as hpstep;
 use clarabel::verif_hooks::cones::verif_hooks_powcone as hpow;
 use clarabel::verif_hooks::cones::verif_hooks_socone as hsoc;
@@ -1187,6 +1188,147 @@ fn oracle_composite_step_full(r: &Req, out: &str) -> Result<(), String> {
     Ok(())
 }
 
+// ------------------------------------------------------------------ PSD barrier
+// `PSDTriangleCone::logdet_barrier` (private, through a call-through hook) and `compute_barrier`
+
+fn run_psd_barrier_matrix(r: &Req) -> String {
+    let mut k = PSDTriangleCone::<f64>::new(r.u("n"));
+    let (_v, q, _ok, _l) = hpbar::logdet_barrier_parts(&mut k, &r.fs("x"), &r.fs("dx"), r.f("a"));
+    Line::out().fs("m", &q).done()
+}
+/// own dense `mat(x + α·dx)`
+fn barrier_mat_own(n: usize, x: &[f64], dx: &[f64], a: f64) -> Vec<Vec<f64>> {
+    let q: Vec<f64> = x.iter().zip(dx).map(|(p, d)| p + a * d).collect();
+    svec_to_mat(&q, n)
+}
+fn oracle_psd_barrier_matrix(r: &Req, out: &str) -> Result<(), String> {
+    let o = resp(out)?;
+    let n = r.u("n");
+    let m = o.fs("m");
+    if m.len() != n * n {
+        return Err(format!("matrix of {} entries for n = {}", m.len(), n));
+    }
+    let own = barrier_mat_own(n, &r.fs("x"), &r.fs("dx"), r.f("a"));
+    let scale = own.iter().flatten().map(|v| v.abs()).fold(0.0, f64::max).max(f64::MIN_POSITIVE);
+    for i in 0..n {
+        for j in 0..n {
+            if (m[i + n * j] - own[i][j]).abs() > 8.0 * EPS * scale {
+                return Err(format!("entry ({},{}) = {:e} is not mat(x + α·dx)[i,j] = {:e}", i, j, m[i + n * j], own[i][j]));
+            }
+            if m[i + n * j] != m[j + n * i] {
+                return Err(format!("matrix handed to Cholesky is not symmetric at ({},{})", i, j));
+            }
+        }
+    }
+    Ok(())
+}
+fn run_psd_logdet_barrier(r: &Req) -> String {
+    let mut k = PSDTriangleCone::<f64>::new(r.u("n"));
+    let (v, _q, _ok, _l) = hpbar::logdet_barrier_parts(&mut k, &r.fs("x"), &r.fs("dx"), r.f("a"));
+    Line::out().f("v", v).done()
+}
+/// the property, on the implementation's value: `+∞` exactly when the Cholesky engine fails,
+/// which happens only off the interior of the cone; otherwise `ln det mat(x + α·dx)` (own
+/// Jacobi eigenvalues) and the LAPACK contract `L·Lᵀ = Q`, `L` lower triangular, `L_ii > 0`
+fn check_logdet_barrier(n: usize, x: &[f64], dx: &[f64], a: f64, v: f64, ok: bool, l: &[f64]) -> Result<Option<f64>, String> {
+    let own = barrier_mat_own(n, x, dx, a);
+    let finite = own.iter().flatten().all(|t| t.is_finite());
+    if !ok {
+        if v != f64::INFINITY {
+            return Err(format!("Cholesky failed but the value is {} (must be +inf)", v));
+        }
+        if finite {
+            let e = jacobi_eigs(&own);
+            let lmin = e.iter().cloned().fold(f64::INFINITY, f64::min);
+            let scale = e.iter().map(|t| t.abs()).fold(0.0, f64::max).max(f64::MIN_POSITIVE);
+            if lmin > 1e-9 * scale * (n as f64) {
+                return Err(format!("Cholesky failed on a positive definite matrix (λmin {:e}, scale {:e})", lmin, scale));
+            }
+        }
+        return Ok(None);
+    }
+    if !finite {
+        return Ok(None);
+    }
+    if l.len() != n * n {
+        return Err("factor size".into());
+    }
+    let scale = own.iter().flatten().map(|t| t.abs()).fold(0.0, f64::max).max(f64::MIN_POSITIVE);
+    for i in 0..n {
+        if !(l[i + n * i] > 0.0) {
+            return Err(format!("L[{},{}] = {:e} is not positive", i, i, l[i + n * i]));
+        }
+        for j in 0..n {
+            if i < j && l[i + n * j] != 0.0 {
+                return Err(format!("L[{},{}] = {:e} above the diagonal", i, j, l[i + n * j]));
+            }
+            let llt: f64 = (0..n).map(|k| l[i + n * k] * l[j + n * k]).sum();
+            if (llt - own[i][j]).abs() > 1e-13 * scale * (n as f64 + 1.0) {
+                return Err(format!("Cholesky contract: (L·Lᵀ)[{},{}] = {:e} vs Q = {:e}", i, j, llt, own[i][j]));
+            }
+        }
+    }
+    let e = jacobi_eigs(&own);
+    let lmin = e.iter().cloned().fold(f64::INFINITY, f64::min);
+    if lmin < -1e-9 * scale * (n as f64) {
+        return Err(format!("Cholesky succeeded on an indefinite matrix (λmin {:e}, scale {:e})", lmin, scale));
+    }
+    if !(lmin > 1e-6 * scale) {
+        // ln det is ill conditioned here; correspondence + contract only
+        return Ok(None);
+    }
+    let ld: f64 = e.iter().map(|t| t.ln()).sum();
+    let tol = 1e-9 * (1.0 + ld.abs()) + (n as f64) * 1e-12 * scale / lmin;
+    if !((v - ld).abs() <= tol) {
+        return Err(format!("value {:e} is not ln det mat(x + α·dx) = {:e} (tol {:e})", v, ld, tol));
+    }
+    Ok(Some(ld))
+}
+fn oracle_psd_logdet_barrier(r: &Req, out: &str) -> Result<(), String> {
+    let n = r.u("n");
+    let (x, dx, a) = (r.fs("x"), r.fs("dx"), r.f("a"));
+    if x.len() != n * (n + 1) / 2 || dx.len() != n * (n + 1) / 2 {
+        return if out.starts_with("panic") { Ok(()) } else { Err("waxpby length mismatch must panic".into()) };
+    }
+    let o = resp(out)?;
+    // the LAPACK answer is re-read from the implementation, not taken from the request
+    let mut k = PSDTriangleCone::<f64>::new(n);
+    let (_v, _q, ok, l) = hpbar::logdet_barrier_parts(&mut k, &x, &dx, a);
+    if ok != r.b("ok") {
+        return Err("recorded Cholesky outcome differs from the implementation's".into());
+    }
+    check_logdet_barrier(n, &x, &dx, a, o.f("v"), ok, &l).map(|_| ())
+}
+fn run_psd_compute_barrier(r: &Req) -> String {
+    let mut k = PSDTriangleCone::<f64>::new(r.u("n"));
+    let v = k.compute_barrier(&r.fs("z"), &r.fs("s"), &r.fs("dz"), &r.fs("ds"), r.f("a"));
+    Line::out().f("v", v).done()
+}
+/// `compute_barrier = −ln det mat(z + α·dz) − ln det mat(s + α·ds)`; when either Cholesky
+/// factorization fails the code returns `0 − (+∞) … = −∞` (recorded as observed behaviour)
+fn oracle_psd_compute_barrier(r: &Req, out: &str) -> Result<(), String> {
+    let o = resp(out)?;
+    let n = r.u("n");
+    let a = r.f("a");
+    let v = o.f("v");
+    let mut k = PSDTriangleCone::<f64>::new(n);
+    let (vz, _qz, okz, lz) = hpbar::logdet_barrier_parts(&mut k, &r.fs("z"), &r.fs("dz"), a);
+    let (vs, _qs, oks, ls) = hpbar::logdet_barrier_parts(&mut k, &r.fs("s"), &r.fs("ds"), a);
+    let cz = check_logdet_barrier(n, &r.fs("z"), &r.fs("dz"), a, vz, okz, &lz)?;
+    let cs = check_logdet_barrier(n, &r.fs("s"), &r.fs("ds"), a, vs, oks, &ls)?;
+    if !okz || !oks {
+        return if v == f64::NEG_INFINITY { Ok(()) } else { Err(format!("a Cholesky factorization failed but the barrier is {} (the code yields -inf)", v)) };
+    }
+    if let (Some(a1), Some(a2)) = (cz, cs) {
+        let want = -(a1 + a2);
+        let tol = 1e-8 * (1.0 + a1.abs() + a2.abs());
+        if !((v - want).abs() <= tol) {
+            return Err(format!("barrier {:e} is not −ln det Z − ln det S = {:e}", v, want));
+        }
+    }
+    Ok(())
+}
+
 // ------------------------------------------------------------------ channel table
 
 macro_rules! ch {
@@ -1226,6 +1368,9 @@ fn channels() -> Vec<Channel> {
         ch!("composite.unit_initialization", e, run_composite_unit, None, true, "CompositeCone::unit_initialization", "Composite.unitInitialization"),
         ch!("composite.shift_to_cone_interior", e, run_shift_to_interior, Some(oracle_shift_to_interior), true, "variables::_shift_to_cone_interior", "Composite.shiftToConeInterior / C15.shift_margin_pos"),
         ch!("psd.step_length", e, run_psd_step_length, Some(oracle_psd_step_length), true, "PSDTriangleCone::step_length (γz, γs from LAPACK)", "PsdStep.stepLength / C15.psd_step_length_components"),
+        ch!("psd.barrier_matrix", e, run_psd_barrier_matrix, Some(oracle_psd_barrier_matrix), true, "waxpby + svec_to_mat inside PSDTriangleCone::logdet_barrier", "PsdBarrier.barrierMatData"),
+        ch!("psd.logdet_barrier", e, run_psd_logdet_barrier, Some(oracle_psd_logdet_barrier), true, "PSDTriangleCone::logdet_barrier (Cholesky factor from LAPACK)", "PsdBarrier.logdetBarrier / C15.psd_logdet_barrier_*"),
+        ch!("psd.compute_barrier", e, run_psd_compute_barrier, Some(oracle_psd_compute_barrier), true, "PSDTriangleCone::compute_barrier (Cholesky factors from LAPACK)", "PsdBarrier.computeBarrier / C15.psd_compute_barrier_*"),
         ch!("psdcomp.margins", e, run_composite_margins, Some(oracle_composite_margins), true, "PSDTriangleCone::margins via CompositeCone (eigenvalues from LAPACK)", "Composite.marginsE"),
         ch!("psdcomp.shift_to_cone_interior", e, run_shift_to_interior, Some(oracle_shift_to_interior), true, "_shift_to_cone_interior with PSD blocks (eigenvalues from LAPACK)", "Composite.shiftToConeInteriorE / C15.shift_to_cone_interior_margin_psd"),
     ]
@@ -1800,6 +1945,59 @@ fn gen_psd_step(s: &mut Session) {
     }
 }
 
+/// `logdet_barrier` / `compute_barrier` at interior points along directions and step sizes that
+/// stay inside, reach the boundary, and leave the cone (the `+∞` branch)
+fn gen_psd_barrier(s: &mut Session) {
+    let n = *s.rng.choose(&[1usize, 1, 2, 2, 3, 3, 4, 5]);
+    let len = n * (n + 1) / 2;
+    let sp = *s.rng.choose(&[1.0, 0.3, 0.1, 1e-3]);
+    let (m1, m2) = (10f64.powf(s.rng.uniform(-3.0, 3.0)), 10f64.powf(s.rng.uniform(-3.0, 3.0)));
+    let z = psd_point(&mut s.rng, n, sp, m1);
+    let sv = psd_point(&mut s.rng, n, sp, m2);
+    let dir = |rng: &mut Rng, x: &[f64], m: f64| -> Vec<f64> {
+        match rng.below(5) {
+            0 => x.iter().map(|v| -v * (1.0 + 0.3 * rng.normal())).collect(),
+            1 => psd_point(rng, n, 0.1, m),
+            2 => vec![0.0; len],
+            3 => x.iter().map(|v| -v).collect(),
+            _ => (0..len).map(|_| rng.normal() * m).collect(),
+        }
+    };
+    let dz = dir(&mut s.rng, &z, m1);
+    let ds = dir(&mut s.rng, &sv, m2);
+    let a = match s.rng.below(6) {
+        0 => 0.0,
+        1 => 1.0,
+        2 => 10f64.powf(s.rng.uniform(-6.0, -1.0)),
+        3 => s.rng.uniform(0.0, 1.0),
+        4 => 10f64.powf(s.rng.uniform(0.5, 4.0)),
+        _ => s.rng.uniform(0.5, 2.0),
+    };
+    let mut parts = vec![];
+    for (x, dx) in [(&z, &dz), (&sv, &ds)] {
+        let mut k = PSDTriangleCone::<f64>::new(n);
+        let (_v, _q, ok, l) = hpbar::logdet_barrier_parts(&mut k, x, dx, a);
+        s.submit(Line::new("psd.barrier_matrix").u("n", n).fs("x", x).fs("dx", dx).f("a", a).done());
+        let out = s.submit(Line::new("psd.logdet_barrier").u("n", n).fs("x", x).fs("dx", dx).f("a", a).b("ok", ok).fs("L", &l).done());
+        if let Ok(o) = resp(&out) {
+            if o.has("v") {
+                s.count(if !ok { "psd-barrier:cholesky-failed(+inf)" } else if o.f("v") < 0.0 { "psd-barrier:finite-negative" } else { "psd-barrier:finite-nonnegative" });
+            }
+        }
+        parts.push((ok, l));
+    }
+    s.submit(
+        Line::new("psd.compute_barrier").u("n", n).fs("z", &z).fs("s", &sv).fs("dz", &dz).fs("ds", &ds).f("a", a)
+            .b("okz", parts[0].0).fs("Lz", &parts[0].1).b("oks", parts[1].0).fs("Ls", &parts[1].1).done(),
+    );
+    if s.rng.bool(0.03) {
+        // wrong length: the `waxpby` asserts fire
+        let mut k = PSDTriangleCone::<f64>::new(n);
+        let (_v, _q, ok, l) = hpbar::logdet_barrier_parts(&mut k, &z, &dz, a);
+        s.submit(Line::new("psd.logdet_barrier").u("n", n).fs("x", &z[..len - 1]).fs("dx", &dz).f("a", a).b("ok", ok).fs("L", &l).done());
+    }
+}
+
 struct PsdRec {
     usok: bool,
     r: Vec<f64>,
@@ -2064,6 +2262,9 @@ fn generate(s: &mut Session) {
     }
     for _ in 0..s.budget(1200, 6000) {
         gen_psd_step(s);
+    }
+    for _ in 0..s.budget(1200, 8000) {
+        gen_psd_barrier(s);
     }
     for _ in 0..s.budget(2000, 20000) {
         gen_genpow(s);
